@@ -149,29 +149,37 @@ TxClampWorkaround(prior) == Rmw(RegTxClampConfig, prior, SetBits(prior, 30))
 \* DS table 13-21 "PA Operating Modes with Optimal Settings": rows <<output dBm, paDutyCycle, hpMax, value in SetTxParams>>
 PaRows1262 == << <<14, 2, 2, 22>>, <<17, 2, 3, 22>>, <<20, 3, 5, 22>>, <<22, 4, 7, 22>> >>
 PaRows1261 == << <<10, 1, 0, 13>>, <<14, 4, 0, 14>>, <<15, 6, 0, 14>> >>
+\* STM32WL high-power PA as characterised by ST (RM0453 / STM32CubeWL SUBGRF_SetTxParams): identical except that the
+\* +14 dBm row is reached with SetTxParams +14.  The two sources disagree on that row; for the STM32WL both readings
+\* are accepted (DESIGN 7.1), for the discrete SX1262 only the data sheet.
+PaRowsStm32wlHp == << <<14, 2, 2, 14>>, <<17, 2, 3, 22>>, <<20, 3, 5, 22>>, <<22, 4, 7, 22>> >>
 \* SetTxParams range: -17..+14 (low-power PA), -9..+22 (high-power PA) in 1 dB steps
 TxParamMin(deviceSel) == IF deviceSel = 1 THEN -17 ELSE -9
 TxParamMax(deviceSel) == IF deviceSel = 1 THEN 14 ELSE 22
-PaRows(deviceSel) == IF deviceSel = 1 THEN PaRows1261 ELSE PaRows1262
-\* chip power range of a PA: from the lowest SetTxParams value on the lowest row up to the highest row
-ChipMinDbm(deviceSel) == IF deviceSel = 1 THEN -17 ELSE -9
-ChipMaxDbm(deviceSel) == PaRows(deviceSel)[Len(PaRows(deviceSel))][1]
-\* the optimal row for a target: the lowest row whose nominal power reaches the target
-PaRowFor(deviceSel, dbm) ==
-    LET rows == PaRows(deviceSel)
-        idx == CHOOSE i \in 1..Len(rows) : rows[i][1] >= dbm /\ \A j \in 1..(i - 1) : rows[j][1] < dbm
-    IN rows[idx]
-\* powers between the optimal settings: lower SetTxParams by the shortfall (1 dB per step)
 \* deviceSel of the chip variants
 DeviceSel(chip) == IF chip = "sx1261" \/ chip = "stm32wl-lp" THEN 1 ELSE 0
-\* complete TX power programming for a requested power: TX clamp (high-power PA only), PA config, TX params
-SetTxPower(chip, dbm, ramp, priorTxClamp) ==
-    LET ds == DeviceSel(chip)
-        target == Clamp(dbm, ChipMinDbm(ds), ChipMaxDbm(ds))
-        row == PaRowFor(ds, target)
+\* the admissible PA tables of a chip variant
+PaTables(chip) ==
+    IF DeviceSel(chip) = 1 THEN {PaRows1261}
+    ELSE IF chip = "stm32wl-hp" THEN {PaRows1262, PaRowsStm32wlHp}
+    ELSE {PaRows1262}
+\* chip power range of a PA: from the lowest SetTxParams value up to the highest row
+ChipMinDbm(deviceSel) == IF deviceSel = 1 THEN -17 ELSE -9
+ChipMaxDbm(deviceSel) == IF deviceSel = 1 THEN 15 ELSE 22
+\* the optimal row for a target: the lowest row whose nominal power reaches the target
+PaRowFor(rows, dbm) ==
+    rows[CHOOSE i \in 1..Len(rows) : rows[i][1] >= dbm /\ \A j \in 1..(i - 1) : rows[j][1] < dbm]
+\* complete TX power programming for a requested power with a given table: TX clamp (high-power PA only), PA
+\* config, TX params; powers between the optimal settings lower SetTxParams by the shortfall (1 dB per step)
+SetTxPowerWith(rows, ds, dbm, ramp, priorTxClamp) ==
+    LET target == Clamp(dbm, ChipMinDbm(ds), ChipMaxDbm(ds))
+        row == PaRowFor(rows, target)
         txp == row[4] - (row[1] - target)
     IN (IF ds = 0 THEN TxClampWorkaround(priorTxClamp) ELSE <<>>)
        \o SetPaConfig(row[2], row[3], ds, 1) \o SetTxParams(txp, ramp)
+\* the set of admissible transaction lists
+SetTxPower(chip, dbm, ramp, priorTxClamp) ==
+    {SetTxPowerWith(rows, DeviceSel(chip), dbm, ramp, priorTxClamp) : rows \in PaTables(chip)}
 
 \* ------------------------------------------------------------------ interrupts (DS 13.3)
 IrqTxDone == 1
@@ -281,14 +289,15 @@ FreqErrNum126(word, f) ==
 FreqNearest126(word, f) == 2 * AbsI(FreqErrNum126(word, f)) <= 15625
 FreqWithin1Hz126(word, f) == AbsI(FreqErrNum126(word, f)) < 16384
 
-\* output power of a (SetPaConfig, SetTxParams) pair by table 13-21: the row's nominal power minus the
-\* number of 1 dB steps SetTxParams stays below the row's value; -1000 = not a data sheet row / out of range
-PaDecode(deviceSel, duty, hpMax, txParam) ==
-    LET rows == PaRows(deviceSel)
-        hit == {i \in 1..Len(rows) : rows[i][2] = duty /\ rows[i][3] = hpMax}
+\* output power of a (SetPaConfig, SetTxParams) pair by a PA table: the row's nominal power minus the
+\* number of 1 dB steps SetTxParams stays below the row's value; -1000 = not a row of the table / out of range
+PaDecodeWith(rows, deviceSel, duty, hpMax, txParam) ==
+    LET hit == {i \in 1..Len(rows) : rows[i][2] = duty /\ rows[i][3] = hpMax}
     IN IF hit = {} \/ txParam < TxParamMin(deviceSel) \/ txParam > TxParamMax(deviceSel) THEN -1000
        ELSE LET row == rows[CHOOSE i \in hit : TRUE] IN
             IF txParam > row[4] THEN -1000 ELSE row[1] - (row[4] - txParam)
+\* the set of readings over the admissible tables of the chip variant
+PaDecode(chip, duty, hpMax, txParam) == {PaDecodeWith(rows, DeviceSel(chip), duty, hpMax, txParam) : rows \in PaTables(chip)}
 
 \* number of symbols of the receive timeout programmed by (SetLoRaSymbNumTimeout byte, register 0x0706)
 SymbDecodeReg(reg) == (reg \div 8) * 2^(2 * (reg % 8) + 1)
@@ -306,6 +315,7 @@ ASSUME SymbTimeoutByte(8) = 8 /\ SymbTimeoutReg(8) = 32
 ASSUME SymbTimeoutByte(248) = 248 /\ SymbTimeoutReg(248) = 249 /\ SymbDecodeReg(249) = 248
 ASSUME SymbTimeoutByte(100) = 104 /\ SymbDecodeReg(SymbTimeoutReg(100)) = 104
 ASSUME SyncWord16Of(52) = 13380 /\ SyncWord16Of(18) = 5156       \* 0x34 -> 0x3444, 0x12 -> 0x1424
-ASSUME PaDecode(0, 4, 7, 22) = 22 /\ PaDecode(0, 2, 2, 22) = 14 /\ PaDecode(1, 1, 0, 13) = 10 /\ PaDecode(1, 1, 0, -14) = -17
+ASSUME PaDecode("sx1262", 4, 7, 22) = {22} /\ PaDecode("sx1262", 2, 2, 22) = {14} /\ PaDecode("sx1261", 1, 0, 13) = {10} /\ PaDecode("sx1261", 1, 0, -14) = {-17}
+ASSUME PaDecode("stm32wl-hp", 2, 2, 14) = {6, 14} /\ PaDecode("sx1262", 2, 2, 14) = {6}
 ASSUME FreqNearest126(PllWord126(868100000), 868100000) /\ ~FreqNearest126(PllWord126(868100000) + 1, 868100000)
 =============================================================================
